@@ -12,7 +12,7 @@
 (***************************************************************************)
 EXTENDS Arith, TLC, Json
 
-CONSTANTS MaxLen, D1Den, SeedDen, SampleDen, SampleRes, Depth2On
+CONSTANTS MaxLen, D1Den, SeedDen, SampleDen, SampleRes, Depth2On, PrimeMax, BlueMax, BothKinds
 
 ButterflyLens == {1, 2, 3, 4, 5, 6, 7, 8, 9, 11, 12, 13, 16, 17, 19, 23, 24, 27, 29, 31, 32}
 DftLens       == {1, 2, 3, 5, 6}
@@ -87,7 +87,18 @@ SmallLeaves == {x \in Leaves : \/ (x.k = "Butterfly" /\ x.len \in {1, 2, 3, 4, 5
 D1seed == {t \in D1all : Sampled(t, SeedDen)}
 D2 == IF Depth2On THEN {t \in Wrap(SmallLeaves \cup D1seed, D1seed) : RootPre(t) /\ Sampled(t, SampleDen)} ELSE {}
 
-Trees == D1 \cup D2
+\* Number-theoretic sweeps: the constructors whose correctness rests on arithmetic facts about the length itself (primitive
+\* roots and the factorisation of p-1 for Rader, the chirp of period 2n and the fit of the inner length for Bluestein) are
+\* built for EVERY prime up to PrimeMax resp. every length up to BlueMax, over planner-produced inner transforms.
+Planned(kind, l) == Node("Planned", l, 0, kind, << >>)
+KindsFor(x) == IF BothKinds THEN {"scalar", "auto"} ELSE {IF x % 4 = 1 THEN "scalar" ELSE "auto"}
+InnerLens(n) == IF BothKinds THEN {2 * n - 1, 2 * n, NextPow2(2 * n - 1), 3 * n}
+                ELSE {CASE n % 4 = 0 -> 2 * n - 1 [] n % 4 = 1 -> 2 * n [] n % 4 = 2 -> NextPow2(2 * n - 1) [] OTHER -> 3 * n}
+D3sel == {Node("RadersAlgorithm", 0, 0, "", <<Planned(k, p - 1)>>) : p \in {q \in 3..PrimeMax : IsPrime(q)}, k \in {"scalar", "auto"}} \cup
+         UNION {{Node("BluesteinsAlgorithm", n, 0, "", <<Planned(k, m)>>) : m \in InnerLens(n), k \in {"scalar", "auto"}} : n \in 2..BlueMax}
+D3 == {x \in D3sel : x.ch[1].pl \in KindsFor(TLen(x))}
+
+Trees == D1 \cup D2 \cup D3
 
 VARIABLE t
 Init == t \in Trees
@@ -98,7 +109,7 @@ Export(x) == PrintT(<<"SCN", ToJson(x)>>)
 
 TreeInv ==
     /\ Pre(t)
-    /\ TLen(t) >= 1 /\ TLen(t) <= MaxLen * 2
+    /\ TLen(t) >= 1 /\ TLen(t) <= Max(MaxLen * 2, Max(PrimeMax, BlueMax))
     /\ Depth(t) \in 1..2
     /\ Export(t)
 =============================================================================
